@@ -355,6 +355,8 @@ def run(ctx):
         known(ctx, forest)
         printf_widths(ctx, forest)
         ordinary_status(ctx, forest)
+        unwritable_everywhere(ctx, forest)
+        panic_inventory(ctx)
     finally:
         forest.close()
 
@@ -427,6 +429,86 @@ def ordinary_status(ctx, forest):
             ctx.violation("find %s: exit %d (%s); expected an ordinary exit status %d" % (" ".join(short), p.returncode, p.stderr.decode("utf-8", "replace")[:120], want_rc),
                           {"property": "C11", "kind": "ordinary-status", "find_args": short, "exit": p.returncode, "stderr": p.stderr.decode("utf-8", "replace")[:300],
                            "expected_exit": want_rc})
+
+
+def panic_inventory(ctx):
+    """every place in find and xargs that can panic by construction (unwrap, expect, panic!, the print macros ...) has been looked at and is
+    listed with its reason in audits/panic_sites.allow; a place that is not listed is a place where "never by a panic" is not shown"""
+    from tools import panic_sites
+    sites = panic_sites.scan(subs=("src/find",))
+    new = panic_sites.unlisted(subs=("src/find",))
+    ctx.count(("panic-inventory",), True, ["panic-inventory", "sites=%d" % len(sites)])
+    ctx.log["panic_sites"] = len(sites)
+    for f, fn, text, ln in new[:5]:
+        ctx.unshown("%s:%d (fn %s): %s - a place that can panic and is not in audits/panic_sites.allow" % (f, ln, fn, text[:100]),
+                    {"property": "C11", "kind": "panic-inventory", "file": f, "line": ln, "function": fn, "text": text,
+                     "explain": "the inventory of panic sites is regenerated from /repo on every run; this one is new and no input reaching it was searched for",
+                     "new_sites": len(new)})
+
+
+def unwritable_everywhere(ctx, forest):
+    """every place that writes - the -help and -version texts, the diagnostics of -printf and of -files0-from - with the stream it
+    writes to on a full device or a closed pipe; and -newerXt on a time stamp beyond what fits into i64 milliseconds (a file system with
+    64-bit time stamps: /dev/shm)"""
+    import subprocess
+    import tempfile
+    d = os.path.join(forest.dir, b"uw")
+    os.makedirs(d)
+    with open(os.path.join(d, b"list"), "wb") as f:
+        f.write(b"x\0\0")
+    open(os.path.join(d, b"x"), "wb").close()
+
+    def run(args, stdout=None, stderr=None, want=(0, 1)):
+        fds = []
+        def stream(kind):
+            if kind == "full":
+                fds.append(open("/dev/full", "wb"))
+                return fds[-1]
+            if kind == "closed-pipe":
+                r, w = os.pipe()
+                os.close(r)
+                fds.append(w)
+                return w
+            return subprocess.DEVNULL
+        try:
+            p = subprocess.run([fw.FIND] + args, stdout=stream(stdout), stderr=stream(stderr), cwd=d, env=xc.ENV, timeout=60)
+        finally:
+            for f in fds:
+                f.close() if hasattr(f, "close") else os.close(f)
+        ctx.count(("unwritable", tuple(args), stdout, stderr), True, "unwritable-stream")
+        if p.returncode not in want:
+            ctx.violation("find %s with stdout %s, stderr %s: exit %d; expected an ordinary exit status %s" % (" ".join(args), stdout, stderr, p.returncode, "/".join(map(str, want))),
+                          {"property": "C11", "kind": "unwritable-stream", "find_args": args, "stdout": stdout, "stderr": stderr, "exit": p.returncode})
+    for how in ("full", "closed-pipe"):
+        run(["-help"], stdout=how, want=(1,))
+        run(["-version"], stdout=how, want=(1,))
+        run(["-files0-from", "list"], stderr=how)
+        open(os.path.join(d, b"gone"), "wb").close()
+        run(["gone", "-delete", "-printf", "%s\n"], stderr=how, want=(1,))
+    run(["-help"], want=(0,))
+    run(["-version"], want=(0,))
+    if os.path.isdir("/dev/shm"):
+        t = tempfile.mkdtemp(prefix="fuv-c11-", dir="/dev/shm")
+        try:
+            far = os.path.join(t, "far")
+            open(far, "wb").close()
+            for ts in (9223372036854776, 2 ** 63 - 1):
+                try:
+                    os.utime(far, ns=(0, ts * 10 ** 9))
+                except (OSError, OverflowError):
+                    continue
+                if os.stat(far).st_mtime < 9e15:
+                    continue        # the file system does not keep such a time
+                for x in ("m", "a"):
+                    p = subprocess.run([fw.FIND, far, "-newer%st" % x, "jan 01, 2020", "-print"], stdout=subprocess.PIPE, stderr=subprocess.PIPE, env=xc.ENV, timeout=60)
+                    ctx.count(("far-timestamp", ts, x), True, "far-timestamp")
+                    want = far.encode() + b"\n" if x == "m" else b""
+                    if p.returncode != 0 or p.stdout != want:
+                        ctx.violation("find FILE -newer%st 'jan 01, 2020' on a file modified %d s after the epoch: exit %d, printed %r" % (x, ts, p.returncode, p.stdout),
+                                      {"property": "C11", "kind": "far-timestamp", "mtime": ts, "exit": p.returncode, "stderr": p.stderr.decode("utf-8", "replace")[:300]})
+        finally:
+            import shutil
+            shutil.rmtree(t, ignore_errors=True)
 
 
 def printf_widths(ctx, forest):
